@@ -135,6 +135,14 @@ def handle (op : String) (args res : List String) : Option Verdict :=
       | _, _, _, _, _ => .bad "parse"
     | _, ["!E"] => .skip "constructor threw"
     | _, _ => .bad "parse"
+  | "tmtau" => some <|
+    match args.mapM pfl, res.mapM pfl with
+    | some [es, tau], some [tp, tb] =>
+      let m := TM.taupf (RE.exact tau) (RE.exact es)
+      let b := TM.tauf (RE.exact tp) (RE.exact es)
+      if !tau.isFinite || tau.abs > 1e150 then .skip "taupf model is for finite arguments whose square does not overflow" else
+      report "Math::taupf / Math::tauf differ from Model/TM" [cmpRE "taupf" tp m, cmpRE "tauf" tb b]
+    | _, _ => .bad "parse"
   | "tmxf" => some <|
     match args.mapM pfl, res.mapM pfl with
     | some [f, _u, v, tau, a, b, c, d, e, g, eu, ev], some [taup, lam, du, dv, xi, eta, du2, dv2, gam, k] =>
